@@ -54,7 +54,7 @@ class RuleOut:
 def where(finfo_or_mod, node=None):
     mod = getattr(finfo_or_mod, "module", finfo_or_mod)
     fn = getattr(finfo_or_mod, "qual", "")
-    line = getattr(node, "lineno", None) if node is not None else getattr(getattr(finfo_or_mod, "node", None), "lineno", None)
+    line = getattr(node, "lineno", None) if node is not None else getattr(getattr(finfo_or_mod, "node", None), "lineno", 1)
     return f"{mod.rel}:{line} {fn}".strip()
 
 
